@@ -1,64 +1,142 @@
-(* Entry points evaluated by the correspondence harness (harness/c12.py). *)
+(* Entry points evaluated by the correspondence harnesses (harness/c08.py, harness/c09.py). *)
 From Coq Require Import NArith List String Bool.
-From Verif Require Import Base.Chars Base.StrX Base.Show Sys.DBPath Sys.DBCompose Sys.DBCache.
+From Verif Require Import Base.Chars Base.Show Sys.AtomicWrite.
 Import ListNotations.
 Open Scope string_scope.
 
-Definition show_path (p : path) : string := show_str (path_str p).
-Definition show_imp (i : imp) : string := show_list show_str [fst i; snd i].
-Definition show_kv (kv : str * str) : string := show_list show_str [fst kv; snd kv].
+(* ---------------------------------------------------------------------------------------------
+   C08 *)
 
-Definition show_db (ver : version) (d : db) : list (string * string) :=
-  [("known", show_list show_imp (known d));
-   ("mand", show_list show_imp (mandatory d));
-   ("canon", show_list show_kv (canonical d));
-   ("forget", show_list show_imp (forget d));
-   ("index", show_list (fun kv => "[" ++ show_str (fst kv) ++ "," ++ show_list show_imp (snd kv) ++ "]")
-                       (index ver d))].
+(* contents travel as (length, polynomial checksum): complete enough to compare, small to print *)
+Definition chk (c : content) : N :=
+  snd (fold_left (fun st b => let '(i, acc) := st in (N.succ i, (acc + i * (b + 1))%N)) c (1%N, 0%N)).
 
-Definition show_key (k : key) : string :=
-  match k with
-  | K1 d e x =>
-      show_list (fun s => s)
-        ([show_string "1"; show_path d;
-          show_option show_str (fst (fst e)); show_option show_str (snd (fst e)); show_option show_str (snd e)]
-         ++ match x with
-            | Some (cwd, home) => [show_path cwd; show_str home]
-            | None => []
-            end)
-  | K2 files => show_list (fun s => s) (show_string "2" :: map show_path files)
+Definition rep (n : N) (pat : content) : content := N.iter n (fun acc => (pat ++ acc)%list) [].
+
+Definition show_file (o : option file) : string :=
+  match o with
+  | None => "null"
+  | Some x => "[" ++ show_nat (List.length (fcontent x)) ++ "," ++ show_N (chk (fcontent x)) ++ ","
+                  ++ show_N (fmode x) ++ "," ++ show_N (fgid x) ++ "]"
   end.
 
-Definition show_err (e : err) : string :=
+Definition show_call (c : call * bool) : string :=
+  let '(name, arg) :=
+    match fst c with
+    | COpen => ("open", 0%N) | CWrite n => ("write", N.of_nat n) | CClose => ("close", 0%N)
+    | CStat => ("stat", 0%N) | CChmod m => ("chmod", m) | CChown g => ("chown", g) | CRename => ("rename", 0%N)
+    end in
+  "[" ++ show_string name ++ "," ++ show_N arg ++ "," ++ show_bool (snd c) ++ "]".
+
+Definition show_ctl (c : ctl) : string :=
+  show_string (match c with Run => "run" | Unwind => "unwind" | Dead => "dead" end).
+
+Definition mk_env (dm dg : N) (allowed : option (list N)) : env :=
+  mkEnv dm dg (fun g => match allowed with None => true | Some l => existsb (N.eqb g) l end).
+
+Definition mk_fs (target : option file) (temps : list (N * file)) : fs :=
+  fold_left (fun f pt => upd f (Tmp (fst pt)) (Some (snd pt))) temps (upd (fun _ => None) Target target).
+
+Fixpoint trace (v : variant) (e : env) (pid : N) (s : fs * plocal) (xs : list (instr * fault)) : list string :=
+  match xs with
+  | [] => []
+  | x :: r =>
+      let '(s', ev) := exec v e (Tmp pid) s x in
+      show_obj [("ev", show_option show_call ev);
+                ("target", show_file (fst s' Target));
+                ("tmp", show_file (fst s' (Tmp pid)));
+                ("ctl", show_ctl (pctl (snd s')))] :: trace v e pid s' r
+  end.
+
+Definition run_single (v : variant) (e : env) (pid : N) (target : option file) (temps : list (N * file))
+           (xs : list (instr * fault)) : string :=
+  "[" ++ join "," (trace v e pid (mk_fs target temps, loc0) xs) ++ "]".
+
+Definition sexec (v : variant) (e : env) (p1 p2 : N) (s : sys) (x : side * (instr * fault)) : sys * option (call * bool) :=
+  match fst x with
+  | L => let '((f', l'), ev) := exec v e (Tmp p1) (sfs s, loc1 s) (snd x) in (mkSys f' l' (loc2 s), ev)
+  | R => let '((f', l'), ev) := exec v e (Tmp p2) (sfs s, loc2 s) (snd x) in (mkSys f' (loc1 s) l', ev)
+  end.
+
+Fixpoint strace (v : variant) (e : env) (p1 p2 : N) (s : sys) (l : list (side * (instr * fault))) : list string :=
+  match l with
+  | [] => []
+  | x :: r =>
+      let '(s', ev) := sexec v e p1 p2 s x in
+      show_obj [("side", show_string (match fst x with L => "L" | R => "R" end));
+                ("ev", show_option show_call ev);
+                ("target", show_file (sfs s' Target));
+                ("tmp1", show_file (sfs s' (Tmp p1)));
+                ("tmp2", show_file (sfs s' (Tmp p2)));
+                ("ctl1", show_ctl (pctl (loc1 s')));
+                ("ctl2", show_ctl (pctl (loc2 s')))] :: strace v e p1 p2 s' r
+  end.
+
+Definition run_two (v : variant) (e : env) (p1 p2 : N) (target : option file) (temps : list (N * file))
+           (sch : list bool) (xs1 xs2 : list (instr * fault)) : string :=
+  "[" ++ join "," (strace v e p1 p2 (sys0 (mk_fs target temps)) (merge sch xs1 xs2)) ++ "]".
+
+(* ---------------------------------------------------------------------------------------------
+   C09 *)
+From Verif Require Import Sys.Actions.
+
+Fixpoint lookup_modf (tbl : list (str * option str)) (c : str) : option str :=
+  match tbl with
+  | [] => None
+  | (k, v) :: r => if str_eqb k c then v else lookup_modf r c
+  end.
+
+Fixpoint afs_of (l : list (N * node)) : Actions.fs :=
+  match l with
+  | [] => fun _ => None
+  | (p, n) :: r => Actions.upd (afs_of r) p (Some n)
+  end.
+
+Definition show_node (o : option node) : string :=
+  match o with
+  | None => "null"
+  | Some (NFile c g) => show_obj [("f", show_str c); ("gen", show_N g)]
+  | Some (NLink t) => show_obj [("l", show_N t)]
+  | Some NDir => show_string "dir"
+  end.
+
+Definition show_errkind (k : errkind) : string :=
+  show_string (match k with ErrBadFilename => "badfilename" | ErrRead => "read" | ErrModify => "modify"
+                          | ErrEOF => "eof" | ErrSymlink => "symlink" end).
+
+Definition show_outcome (o : outcome) : string :=
+  match o with
+  | Normal => show_string "normal" | Abort => show_string "abort" | ExitOne => show_string "exit1"
+  | Error k => "[" ++ show_string "error" ++ "," ++ show_errkind k ++ "]" | Fatal => show_string "fatal"
+  end.
+
+Definition show_event (e : event) : string :=
   match e with
-  | ENoSafe => show_string "ValueError:nosafe"
-  | EValue p => show_string "ValueError"
-  | EUnsafe => show_string "UnsafeFilenameError"
-  | EParse n => show_str n
+  | EvPrint p c => "[" ++ show_string "print" ++ "," ++ show_N p ++ "," ++ show_str c ++ "]"
+  | EvPrompt p => "[" ++ show_string "prompt" ++ "," ++ show_N p ++ "]"
+  | EvAborted => "[" ++ show_string "aborted" ++ "]"
+  | EvExec p => "[" ++ show_string "exec" ++ "," ++ show_N p ++ "]"
+  | EvWrite p c => "[" ++ show_string "write" ++ "," ++ show_N p ++ "," ++ show_str c ++ "]"
   end.
 
-Definition show_step (ver : version) (oc : outcome * cache) : string :=
-  let keys := ("keys", show_list show_key (map fst (snd oc))) in
-  match fst oc with
-  | Hit v => show_obj (("kind", show_string "hit") :: show_db ver v ++ [keys])
-  | Loaded files v => show_obj (("kind", show_string "loaded") :: ("files", show_list show_path files)
-                                :: show_db ver v ++ [keys])
-  | Failed e => show_obj [("kind", show_string "err"); ("err", show_err e); keys]
+Definition show_action (a : action) : string :=
+  show_string (match a with
+               | Print => "print" | Replace => "replace" | IfChanged => "ifchanged" | Query => "query" | Diff => "diff"
+               | Exit1 => "exit1" | Execute => "execute" | SymErr => "sym_error" | SymFollow => "sym_follow"
+               | SymSkip => "sym_skip" | SymReplace => "sym_replace" end).
+
+Definition run_tool (fx : fixes) (tbl : list (str * option str)) (tty : bool) (opts : list cli_option)
+           (args : list arg) (answers : list str) (files : list (N * node)) (gen0 : N) (watch : list N) : string :=
+  match fold_options fx tty opts with
+  | None => show_obj [("parse", show_bool false)]
+  | Some acts =>
+      let r := process fx (lookup_modf tbl) acts args answers (afs_of files) gen0 in
+      show_obj [("parse", show_bool true);
+                ("actions", show_list show_action acts);
+                ("exit", show_N (rexit r));
+                ("errors", show_list (show_pair show_N show_errkind) (rerrors r));
+                ("log", show_list (show_pair show_N show_outcome) (rlog r));
+                ("fatal", show_bool (rfatal r));
+                ("fs", show_list (fun p => show_pair show_N show_node (p, rfs r p)) watch);
+                ("out", show_list show_event (rout r))]
   end.
-
-(* one history of lookups against a fixed tree; repaired code *)
-Definition run_history (ver : version) (t : ftree) (etc : list path) (qs : list query) : string :=
-  show_list (show_step ver) (run_trace t etc ver qs []).
-
-(* the same lookups, each against an empty cache *)
-Definition run_fresh (ver : version) (t : ftree) (etc : list path) (qs : list query) : string :=
-  show_list (fun q => show_step ver (let '(c, o) := get_default t etc ver [] q in (o, c))) qs.
-
-Definition run_etc (t : ftree) (module_dir : path) : string :=
-  show_list show_path (find_etc_dirs _ t module_dir).
-
-Definition run_compose (ver : version) (fs : list dbfile) : string :=
-  show_obj (show_db ver (compose fs)).
-
-Definition run_or (ver : version) (a b : list dbfile) : string :=
-  show_obj (show_db ver (db_or (compose a) (compose b))).
